@@ -34,7 +34,8 @@ def pattern(clen, salt):
 
 
 def gen_op(rng, fam, force=None):
-    maxlen = 65527 if fam == 1 else 65507
+    # v6 on loopback: IPV6_DONTFRAG and the 65536-byte MTU cap a datagram at 65536 - 40 - 8 bytes
+    maxlen = 65488 if fam == 1 else 65507
     k = rng.below(100)
     sendmode = 0 if rng.chance(3, 4) else 1
     if k < 12:                         # no segment size
